@@ -5,6 +5,7 @@ import Infretis.Lemmas.PermGlynn
 import Infretis.Lemmas.PermStair
 import Infretis.Lemmas.PermPipe
 import Infretis.Lemmas.PermFinal
+import Infretis.Lemmas.PermEmbed
 import Mathlib.Tactic.NormNum
 /-!
 # C02 — swap probabilities equal the exact permanent ratios
@@ -36,14 +37,17 @@ def wLocked : Mat :=
   [[1,0,0,0,0,0],[0,1,1,1,0,0],[0,1,1,0,0,0],[0,1,1,1,1,0],[0,1,1,1,1,0],[0,0,0,0,0,0]]
 def locksLocked : List Bool := [false, false, true, false, false, true]
 
-/-- a wire-fencing-like weighted state (per-path weights 2, 17, 1000 and a free row) -/
-def wWire : Mat := [[1,0,0,0,0],[0,2,0,0,0],[0,17,17,17,0],[0,1000,1000,1000,0],[0,3,5,1,0]]
+/-- a wire-fencing-like weighted state (per-path weights 2, 1000, 17 and a free row, slots not
+    in sorted order, ghost locked) -/
+def wWire : Mat :=
+  [[1,0,0,0,0,0],[0,2,0,0,0,0],[0,1000,1000,1000,1000,0],[0,17,17,17,0,0],[0,3,5,1,7,0],[0,0,0,0,0,0]]
+def locksWire : List Bool := [false, false, false, false, false, true]
 
 set_option maxRecDepth 100000 in
 example : permC wMatrix1 = 4 := by decide +kernel
 example : permC wMatrix2 = 10508395762620 := by decide +kernel
 example : permC (idle wLocked locksLocked) = 4 := by decide +kernel
-example : permC (idle wWire [false, false, false, false, true]) ≠ 0 := by decide +kernel
+example : permC (idle wWire locksWire) ≠ 0 := by decide +kernel
 
 /-- **Doubly stochastic, columns.** Every column of the permanent-ratio matrix sums to one. -/
 theorem spec_col_sum (W : Mat) (j : Nat) (hj : j < W.length) (hW : permC W ≠ 0) :
@@ -201,5 +205,27 @@ theorem quick_eq_permanent_path (cnts : List Nat) (h2 : 2 ≤ cnts.length)
 
 example : permanentProb (stair [2, 2, 3]) = .ok (quickProb (stair [2, 2, 3]))
     ∧ quickProb (stair [2, 2, 3]) = [[1/2, 1/2, 0], [1/2, 1/2, 0], [0, 0, 1]] := by decide +kernel
+
+
+/-! ## 6. The embedded specification `probMatrix`: busy rows and columns -/
+
+/-- **Zero on busy rows and columns**: an entry of `probMatrix` in a locked row or a locked
+    column is zero (`locks[i]? = some true` includes the bound `i < locks.length`). -/
+theorem probMatrix_busy (W : Mat) (locks : List Bool) (hW : W.length = locks.length) (i j : Nat)
+    (hb : locks[i]? = some true ∨ locks[j]? = some true) : entry (probMatrix W locks) i j = 0 :=
+  Perm.probMatrix_busy W locks hW i j hb
+
+/-- **The permanent ratio of the idle block on idle rows and columns**: slot `i` is row
+    `rank locks i` (number of idle slots before it) of the idle block. -/
+theorem probMatrix_idle (W : Mat) (locks : List Bool) (hW : W.length = locks.length) (i j : Nat)
+    (hi : locks[i]? = some false) (hj : locks[j]? = some false) :
+    entry (probMatrix W locks) i j = pSpec (idle W locks) (rank locks i) (rank locks j) :=
+  Perm.probMatrix_idle W locks hW i j hi hj
+
+example : wLocked.length = locksLocked.length ∧ locksLocked[2]? = some true
+    ∧ locksLocked[3]? = some false ∧ locksLocked[4]? = some false
+    ∧ entry (probMatrix wLocked locksLocked) 3 2 = 0
+    ∧ rank locksLocked 3 = 2 ∧ rank locksLocked 4 = 3
+    ∧ entry (probMatrix wLocked locksLocked) 3 4 = 1 / 2 := by decide +kernel
 
 end Infretis.C02
